@@ -206,6 +206,9 @@ def make_tables(rng, n, mc, ra_dt):
         zen=r.uniform(0.1, 3, n).astype(np.float32),
         log_energy=r.uniform(2, 6, n).astype(np.float32),
         user_q=r.randint(-300, 300, n).astype(np.int16))
+    if n >= 4:
+        j, k2 = r.choice(n, 2, replace=False)
+        d['time'][j] = d['time'][k2]                     # duplicated time stamp
     if mc:
         d.update(true_ra=r.uniform(0.1, 6.2, n), true_dec=r.uniform(-1.2, 1.2, n),
                  true_energy=r.uniform(100, 1e5, n), mcweight=r.uniform(1, 2, n),
@@ -217,7 +220,7 @@ class Setup:
     pass
 
 
-def build(ctx, cfgd):
+def build(ctx, cfgd, enc=None, case=None):
     """build the real objects for one session from the configuration dict `cfgd`"""
     import random as pyrandom
     from skyllh.core.config import Config
@@ -355,9 +358,11 @@ def build(ctx, cfgd):
     class SG(MCMultiDatasetSignalGenerator):
         def __init__(self, **kw):
             super().__init__(valid_event_field_ranges_dict_list=valid, **kw)
-    ana = Ana(shg_mgr=shg_mgr, pmm=pmm, test_statistic=TS(), sig_generator_cls=SG, cfg=cfg)
     S.datas, S.methods, S.mkinds, S.scr_kinds, S.tdmcfg, S.esm = [], [], [], [], [], []
     S.ra_k, S.ra_range = [], []
+    S.cons_ops = []
+    # ---- the stored data exist BEFORE any method / generator / analysis object is constructed
+    dss = []
     for i in range(2):
         dc = cfgd['ds'][i]
         ra_dt = np.float32 if dc['ra32'] else np.float64
@@ -365,7 +370,40 @@ def build(ctx, cfgd):
                      default_sub_path_fmt='', version=1)
         data = DatasetData(data_exp=make_tables(rng, dc['n_exp'], False, ra_dt),
                            data_mc=make_tables(rng, dc['n_mc'], True, ra_dt), livetime=10.)
+        from skyllh.i3.dataset import I3DatasetData
+        from skyllh.core.storage import DataFieldRecordArray as DFRA_
+        ts = sorted(set(float(x) for x in data.exp['time']))
+        inner = [ts[len(ts) // 3], ts[(2 * len(ts)) // 3]] if len(ts) >= 3 else [58001.0, 58002.5]
+        if inner[0] == inner[1]:
+            inner[1] = inner[0] + 0.125
+        edges = [57999.0] + inner + [58010.0]
+        grl = DFRA_({'run': np.arange(3, dtype=np.int64) + 120000, 'start': np.array(edges[:-1]),
+                     'stop': np.array(edges[1:]), 'livetime': np.diff(np.array(edges))}, copy=False)
+        data = I3DatasetData(data, grl)
+        dss.append(ds)
         S.datas.append(data)
+    S.snap0 = snapshot(S)
+    if enc is not None:
+        S.exps_term = '[' + '; '.join(table_term(enc, d.exp) for d in S.datas) + ']'
+        S.mcs_term = '[' + '; '.join(table_term(enc, d.mc) for d in S.datas) + ']'
+
+    def checkpoint(step):
+        """predicate: construction is an operation too"""
+        ctx.count('construct:' + step)
+        snap = snapshot(S)
+        if snap != S.snap0:
+            which = [('exp', 'mc', 'grl')[j] + str(i2) for i2 in range(2) for j in range(3)
+                     if snap[i2][j] != S.snap0[i2][j]]
+            ctx.violation('construct:' + step, 'dataset-array-changed', f'{which} changed by constructing {step}',
+                          case=case, impl=which, predicate='bytes, dtypes, field list and order of exp/mc unchanged')
+            S.snap0 = snap
+    S.checkpoint = checkpoint
+    ana = Ana(shg_mgr=shg_mgr, pmm=pmm, test_statistic=TS(), sig_generator_cls=SG, cfg=cfg)
+    checkpoint('analysis')
+    for i in range(2):
+        dc = cfgd['ds'][i]
+        ds = dss[i]
+        data = S.datas[i]
         sk = dc['scr']
         ra_range = tuple(dc['ra_range']) if dc['ra_range'] else (0.0, 2 * math.pi)
         if sk == 'uniform':
@@ -375,15 +413,20 @@ def build(ctx, cfgd):
         elif sk == 'coretime':
             m = TimeScramblingMethod(timegen=TimeGenerator(TG()), hor_to_equ_transform=hor_to_equ_transform)
         elif sk == 'seasonal':
-            class D:
-                pass
-            dd = D()
-            dd.exp = data.exp
-            dd.grl = {'start': np.array([57999., 58002.]), 'stop': np.array([58002., 58010.])}
-            m = I3SeasonalVariationTimeScramblingMethod(dd)
+            # oracle-free: the run masks are recomputed here from the stored column (independent of the code)
+            tcol = np.array(data.exp['time'], copy=True)
+            masks = [((tcol >= a) & (tcol < b)).tolist() for a, b in zip(data.grl['start'], data.grl['stop'])]
+            m = I3SeasonalVariationTimeScramblingMethod(data)
+            S.cons_ops.append(f"ConsSeasonal {nat(i)} [{'; '.join(bl(mk_) for mk_ in masks)}]")
+            cnt = np.array([sum(mk_) for mk_ in masks], dtype=np.float64)
+            if cnt.sum() > 0 and not np.allclose(m.run_weights, cnt / cnt.sum(), rtol=1e-12, atol=0):
+                ctx.violation('construct:scrambling-method:seasonal', 'wrong-run-weights', 'run weights differ from the '
+                              'fraction of events in [start, stop)', case=case, impl=m.run_weights.tolist(),
+                              model=(cnt / cnt.sum()).tolist())
         else:
             m = None
         if m is not None:
+            checkpoint('scrambling-method:' + sk)
             wrap_scramble(ctx, m, sk, ra_range)
         scr = DataScrambler(m) if m is not None else None
         mk = dc['bkg']
@@ -405,6 +448,7 @@ def build(ctx, cfgd):
                 comps = {'comp_gp': (lambda dataset, data, events: np.cos(events['dec']).astype(np.float64)),
                          'comp_x': (lambda dataset, data, events: events['mcweight'] * 2.0)}
                 meth = CompositeMCDataSamplingBkgGenMethod(bkg_component_rate_calc_func_dict=comps, **kw)
+        checkpoint('bkg-method:' + mk)
         S.methods.append(meth)
         S.mkinds.append(mk)
         S.scr_kinds.append(sk if m is not None else None)
@@ -432,6 +476,7 @@ def build(ctx, cfgd):
             else:
                 tdm.add_data_field(nm, logged('stat', nm, lambda t: (t.get_data('log_energy') * 2).astype(np.float64)))
         S.tdmcfg.append(tc)
+        checkpoint('trial-data-manager')
         esm = None
         if tc['esm'] == 'all':
             esm = AllEventSelectionMethod(shg_mgr)
@@ -439,8 +484,16 @@ def build(ctx, cfgd):
             esm = MaskESM(shg_mgr, -0.9, 'esm')
         ana.add_dataset(ds, data, PR(), tdm=tdm, event_selection_method=esm,
                         bkg_generator=DatasetBackgroundGenerator(dataset=ds, data=data, bkg_gen_method=meth, cfg=cfg))
+        checkpoint('add_dataset')
     ana._ds_sig_weight_factors_service = WS()
     ana.llhratio = ana.construct_llhratio()
+    checkpoint('llhratio')
+    ana.construct_background_generator()
+    checkpoint('background-generator')
+    ana.construct_signal_generator()
+    checkpoint('signal-generator')
+    for i in range(2):
+        S.cons_ops.append(f'ConsSigCand {nat(i)} {zl(list(range(len(S.datas[i].mc))))}')
     # capture the events handed to do_trial_with_given_pseudo_data (do_trial keeps them internal)
     S.captured = {}
     orig_dt = ana.do_trial_with_given_pseudo_data
@@ -712,7 +765,7 @@ def exc_kind(ex):
 
 
 def snapshot(S):
-    return [(table_bytes(d.exp), table_bytes(d.mc)) for d in S.datas]
+    return [(table_bytes(d.exp), table_bytes(d.mc), table_bytes(d.grl)) for d in S.datas]
 
 
 # ---------------------------------------------------------------------------- running one session
@@ -722,8 +775,8 @@ CALLS = ['bkg', 'sig', 'sig_only', 'trial_bkg_sig', 'init', 'eval', 'trial', 'un
 def run_session(ctx, sess):
     """run the implementation; returns (model expression, [impl observations], enc)"""
     from skyllh.core.random import RandomStateService
-    S = build(ctx, sess['cfg'])
     enc = Enc()
+    S = build(ctx, sess['cfg'], enc, sess)
     rss = RandomStateService(sess['cfg']['seed'] % 1000 + 1)
     rss._random = SpyRandom(sess['cfg']['seed'] % 1000 + 1)
     # composite rates: record via wrapper on the method's dict
@@ -739,10 +792,11 @@ def run_session(ctx, sess):
                         return r
                     return g
                 d[nm] = mkf(d[nm])
-    exps = '[' + '; '.join(table_term(enc, d.exp) for d in S.datas) + ']'
-    mcs = '[' + '; '.join(table_term(enc, d.mc) for d in S.datas) + ']'
-    groups, impl_obs = [], []
-    snap0 = snapshot(S)
+    exps, mcs = S.exps_term, S.mcs_term          # the tables as they were BEFORE any construction
+    snap0 = S.snap0
+    # the construction of the analysis objects is the first call of every session
+    groups = ['[' + '; '.join(S.cons_ops) + ']', '[]']
+    impl_obs = [('Ok', observe_impl(S, enc))]
     ana = S.ana
     for call in sess['calls']:
         ctx.count('call:' + call)
@@ -835,7 +889,7 @@ def run_session(ctx, sess):
         # ---- predicate: byte snapshots of exp / mc
         snap = snapshot(S)
         if snap != snap0:
-            which = [('exp' if j == 0 else 'mc') + str(i) for i in range(2) for j in range(2) if snap[i][j] != snap0[i][j]]
+            which = [('exp', 'mc', 'grl')[j] + str(i) for i in range(2) for j in range(3) if snap[i][j] != snap0[i][j]]
             ctx.violation('Analysis.' + call, 'dataset-array-changed', f'{which} changed by {call}',
                           case=sess, impl=which, predicate='bytes, dtypes, field list and order of exp/mc unchanged')
             snap0 = snap
@@ -861,7 +915,7 @@ def compare_session(ctx, sess, impl_obs, enc, val):
         except Exception as ex:   # noqa: BLE001
             ctx.disagree('alias.parse', sess, None, repr(mobs)[:300], detail=f'cannot read model value: {ex}')
             return
-        call = sess['calls'][ci]
+        call = (['construct'] + list(sess['calls']))[ci]
         if mstat != status:
             ctx.disagree('alias.status:' + call, dict(sess, at=ci), status, mstat, detail='status differs')
             return
